@@ -266,8 +266,26 @@ pub fn main(args: &[String]) {
                     let step = (n / per_font).max(1);
                     let name = path.file_name().unwrap().to_string_lossy().to_string();
                     rep.add("corpus_fonts", 1);
-                    for gid in (0..n).step_by(step) {
-                        let (Some(a), Some(b)) = (loca.get_raw(gid), loca.get_raw(gid + 1)) else { continue };
+                    // the byte range of a glyph is computed here from the raw loca bytes (short entries are
+                    // u16 * 2 in 32 bits, long entries u32), not asked from the reader under test
+                    let long = f.head().map(|h| h.index_to_loc_format() == 1).unwrap_or(false);
+                    let raw = f.table_data(read_fonts::types::Tag::new(b"loca")).map(|d| d.as_bytes().to_vec()).unwrap_or_default();
+                    let entry = |i: usize| -> Option<u64> {
+                        if long {
+                            raw.get(4 * i..4 * i + 4).map(|b| u32::from_be_bytes([b[0], b[1], b[2], b[3]]) as u64)
+                        } else {
+                            raw.get(2 * i..2 * i + 2).map(|b| u16::from_be_bytes([b[0], b[1]]) as u64 * 2)
+                        }
+                    };
+                    for gid in (0..n).step_by(step).chain(n.saturating_sub(3)..n) {
+                        let (Some(a), Some(b)) = (entry(gid), entry(gid + 1)) else { continue };
+                        if loca.get_raw(gid).map(u64::from) != Some(a) || loca.get_raw(gid + 1).map(u64::from) != Some(b) {
+                            rep.violation(
+                                &format!("{name} glyph {gid}: loca entries {a}..{b} are reported as {:?}..{:?}", loca.get_raw(gid), loca.get_raw(gid + 1)),
+                                json!({"kind": "glyf-corpus", "font": name, "glyph": gid}),
+                            );
+                            continue;
+                        }
                         let Some(data) = glyf.offset_data().as_bytes().get(a as usize..b as usize) else { continue };
                         if data.len() > 1400 {
                             continue;
